@@ -23,3 +23,50 @@ package builtins
 //@ ensures[C09.released] !ghost("lock.r", bool, &mutex)
 
 //@ scan[C09.codecs.users] C09 extcalls github.com/risor-io/risor/builtins.codecs: RegisterCodec GetCodec init
+
+// ---- C19: the built-in codecs use one encoding object in both directions ---------------------------------------
+// decode(encode(x)) == x is a property of Go's encoding packages provided both directions use the same encoding
+// (see modules/base64): every call of an encoding method in the encode/decode pair of a codec has the package's
+// standard encoding as its receiver.
+//@ func encodeBase64
+//@ props C19
+//@ callpre[C19.codec.base64] EncodeToString: recv == base64.StdEncoding
+//@ func decodeBase64
+//@ props C19
+//@ callpre[C19.codec.base64] Decode: recv == base64.StdEncoding
+//@ callpre[C19.codec.base64] DecodedLen: recv == base64.StdEncoding
+//@ func encodeBase32
+//@ props C19
+//@ callpre[C19.codec.base32] EncodeToString: recv == base32.StdEncoding
+//@ func decodeBase32
+//@ props C19
+//@ callpre[C19.codec.base32] Decode: recv == base32.StdEncoding
+//@ callpre[C19.codec.base32] DecodedLen: recv == base32.StdEncoding
+
+// ---- C01 (try/error): constructors that take a size reject a negative one with an error -----------------------
+// make([]T, n) panics for n < 0; the VM would report the recovered panic and abort the evaluation, which try cannot
+// catch (KF-41 fixed: byte_slice(-1), float_slice(-1), buffer(-1)). Safety obligations of kind makeslice only.
+//@ func ByteSlice
+//@ props C01 C03
+//@ safety makeslice
+//@ assume[args.wf] ctx != nil && forall(k, 0, len(args), args[k] != nil && ref(args[k]) != nil)
+//@ func FloatSlice
+//@ props C01 C03
+//@ safety makeslice
+//@ assume[args.wf] ctx != nil && forall(k, 0, len(args), args[k] != nil && ref(args[k]) != nil)
+//@ func Buffer
+//@ props C01 C03
+//@ safety makeslice
+//@ assume[args.wf] ctx != nil && forall(k, 0, len(args), args[k] != nil && ref(args[k]) != nil)
+//@ func List
+//@ props C01 C03
+//@ safety makeslice
+//@ assume[args.wf] ctx != nil && forall(k, 0, len(args), args[k] != nil && ref(args[k]) != nil)
+//@ func Make
+//@ props C01 C03
+//@ safety makeslice makemap makechan
+//@ assume[args.wf] ctx != nil && forall(k, 0, len(args), args[k] != nil && ref(args[k]) != nil)
+//@ func Chan
+//@ props C01 C03
+//@ safety makeslice makemap makechan
+//@ assume[args.wf] ctx != nil && forall(k, 0, len(args), args[k] != nil && ref(args[k]) != nil)
